@@ -1,4 +1,2 @@
 NA["C04"] = "quantifies over goroutine interleavings (WaitGroup, channels); the contract engine has no concurrency semantics"
 NA["C05"] = "relates Pause returning on one goroutine to a handler running on another; needs rely/guarantee reasoning over atomics/Cond, outside the contract subset"
-NA["C32"] = "property of the event stream emitted by every tracing call site over whole runs with resets"
-NA["C33"] = "two-run hyperproperty (with vs without observers) over programs"
